@@ -26,8 +26,15 @@ from ..runner import Prop
 MGR_NAMES = ["population_manager", "event_manager", "values_manager", "randomness_manager", "results_manager",
              "life_cycle_manager", "lookup_table_manager", "datetime_clock", "logging_manager"]
 # manager defaults a user may safely override (value pools keep the managers' own setup happy)
-MGR_PATHS = {"population.population_size": [0, 3, 7], "randomness.random_seed": [1, 5, 42], "time.step_size": [2, 3]}
-POOL = [f"s{a}.k{b}" for a in range(3) for b in range(4)] + ["s3.d.k0", "s3.d.k1", "s3.e.k0"]
+# (falsy values included where the manager's setup tolerates them: a user may set a key to None / 0 / False / "" / [])
+MGR_PATHS = {"population.population_size": [0, 3, 7], "randomness.random_seed": [1, 5, 42, None, False, "", []],
+             "time.step_size": [2, 3], "interpolation.validate": [None, 0, False, ""], "interpolation.extrapolate": [None, 0, False],
+             "interpolation.order": [None, False, ""], "stratification.default": [None, 0, ""],
+             "randomness.additional_seed": [0, False, "", []]}
+# prefix-free leaf paths at nesting depths 1-4
+POOL = [f"s{a}.k{b}" for a in range(3) for b in range(4)] + ["s3.d.k0", "s3.d.k1", "s3.e.k0", "s4.a.b.k0", "s4.a.b.k1", "s4.a.c", "t0", "t1"]
+# what a user may supply besides ordinary values: every one of these is a VALUE (None is not "unset")
+FALSY = [None, 0, False, "", []]
 HOWS = ["update", "setattr", "setitem", "sub_update"]
 REJECTIONS = ("dupname", "dupvalue")
 
@@ -40,6 +47,10 @@ def tok(v) -> str:
         return f"i{v}" if v >= 0 else f"im{-v}"
     if v is None:
         return "N"
+    if isinstance(v, str) and v == "":
+        return "sE"
+    if isinstance(v, list) and not v:
+        return "lE"
     return "h" + hashlib.sha1(repr(v).encode()).hexdigest()[:8]
 
 
@@ -301,8 +312,9 @@ def _run(case):
     return obs
 
 
-def _enc_defs(pairs):
-    return ";".join(f"{p}={tok(v) if not isinstance(v, str) else v}" for p, v in pairs) if pairs else "-"
+def _enc_defs(pairs, tokens=False):
+    """`tokens`: the values are protocol tokens already (manager_info), otherwise raw configuration values"""
+    return ";".join(f"{p}={v if tokens else tok(v)}" for p, v in pairs) if pairs else "-"
 
 
 def _enc_forest(forest):
@@ -361,7 +373,7 @@ class C20(Prop):
         for t in flat:                                        # defaults: globally distinct paths unless a fault is injected
             for _ in range(rng.choice([0, 0, 1, 1, 2])):
                 if free:
-                    t["d"].append([free.pop(), rng.randint(0, 9)])
+                    t["d"].append([free.pop(), rng.randint(1, 9)])
         fault = rng.random()
         if flat and fault < 0.16 and len(flat) >= 2:            # duplicate name, distinct objects, random depth
             a, b = rng.sample(flat, 2)
@@ -375,7 +387,7 @@ class C20(Prop):
         elif flat and fault < 0.50 and len(flat) >= 2:           # two components default the same key
             a, b = rng.sample(flat, 2)
             if not a["d"]:
-                a["d"].append([rng.choice(pool), rng.randint(0, 9)])
+                a["d"].append([rng.choice(pool), rng.randint(1, 9)])
             p, v = rng.choice(a["d"])
             if all(q != p for q, _ in b["d"]):
                 b["d"].append([p, v if rng.random() < 0.3 else rng.randint(10, 19)])
@@ -395,8 +407,13 @@ class C20(Prop):
                 if p is None or p in seen:
                     continue
                 seen.add(p)
-                out.append([p, rng.choice(MGR_PATHS[p]) if p in MGR_PATHS else rng.randint(20, 99)])
+                if p in MGR_PATHS:
+                    v = rng.choice(MGR_PATHS[p])
+                else:
+                    v = rng.choice(FALSY) if rng.random() < falsy_rate else rng.randint(20, 99)
+                out.append([p, v])
             return out
+        falsy_rate = rng.choice([0.0, 0.3, 0.6, 1.0])
         ms = pick(rng.choice([0, 1, 2, 4]), cand)
         ov = pick(rng.choice([0, 1, 2, 4]), cand + [p for p, _ in ms] * 2)
         ms_kind = rng.choice(["dict", "lct"]) if ms else rng.choice([None, None, "dict"])
@@ -430,7 +447,7 @@ class C20(Prop):
         delete = None
         if rng.random() < 0.25:
             keys = [p for p in cand if p not in MGR_PATHS]
-            keys = keys + [p.split(".")[0] for p in keys] + [".".join(p.split(".")[:2]) for p in keys if p.count(".") == 2] + ["absent", "s0.nothing"]
+            keys = keys + [".".join(p.split(".")[:k]) for p in keys for k in range(1, p.count(".") + 1)] + ["absent", "s0.nothing"]
             delete = [rng.choice(keys), rng.choice(["delattr", "delitem"])]
         return {"forest": forest, "batches": batches, "ms": ms, "ms_kind": ms_kind, "ov": ov, "ov_kind": ov_kind,
                 "probes": probes, "attempts": attempts, "pre": pre, "post": post,
@@ -502,6 +519,24 @@ class C20(Prop):
             case([N(0, "a", [("s0.k0", 1)])], ov=[("s0.k1", 9)], pre=[("s0.k0", 70)], post=[("s0.k0", 71, "update")]),
             case([N(0, "a", [("s0.k0", 1)])], ov=[("s0.k0", 9)], pre=[("s0.k0", 70)]),
             case([N(0, "a", [("s0.k0", 1)])], pre=[("early.k0", 70)], attempts=[("a", "early.k0", 5, "update")]),
+            # falsy user values are values: None / 0 / False / "" / [] over component and manager defaults, at depths 1-4,
+            # as override argument (plain dict and LayeredConfigTree) and in the model specification, and None over a
+            # model-specification value
+            case([N(0, "a", [("s0.k0", 1), ("s0.k1", 2), ("s3.d.k0", 3), ("s4.a.b.k0", 4), ("t0", 5)], [N(1, "b", [("s1.k0", 6)])])],
+                 ov=[("s0.k0", None), ("s0.k1", 0), ("s3.d.k0", False), ("s4.a.b.k0", ""), ("t0", []), ("s1.k0", None)]),
+            case([N(0, "a", [("s0.k0", 1), ("s0.k1", 2), ("s3.d.k0", 3), ("s4.a.b.k0", 4), ("t0", 5)], [N(1, "b", [("s1.k0", 6)])])],
+                 ov=[("s0.k0", None), ("s0.k1", 0), ("s3.d.k0", False), ("s4.a.b.k0", ""), ("t0", []), ("s1.k0", None)], ov_kind="lct"),
+            case([N(0, "a", [("s0.k0", 1), ("s3.d.k0", 3), ("s4.a.b.k0", 4), ("t0", 5)])],
+                 ms=[("s0.k0", None), ("s3.d.k0", 0), ("s4.a.b.k0", None), ("t0", False), ("s2.k2", [])]),
+            case([N(0, "a", [("s0.k0", 1), ("s3.d.k0", 3)])], ms=[("s0.k0", None), ("s3.d.k0", 0)], ms_kind="lct"),
+            case([N(0, "a", [("s0.k0", 1)]), N(1, "b", [("s4.a.b.k1", 2)])], ms=[("s0.k0", 10), ("s4.a.b.k1", 20), ("t1", 30)],
+                 ov=[("s0.k0", None), ("s4.a.b.k1", None), ("t1", None)]),
+            case([N(0, "a", [("s0.k0", 1)])], ms=[("s0.k0", None)], ov=[("s0.k0", 0)]),
+            case([N(0, "a")], ov=[("interpolation.validate", None), ("interpolation.extrapolate", False), ("randomness.random_seed", None),
+                                  ("stratification.default", None), ("randomness.additional_seed", 0), ("fresh.k0", None)],
+                 probes=["interpolation.validate", "interpolation.extrapolate", "randomness.random_seed", "stratification.default",
+                         "randomness.additional_seed", "fresh.k0", "interpolation.order"]),
+            case([N(0, "a")], ms=[("interpolation.validate", None), ("interpolation.order", None)], ov=[("interpolation.order", False)]),
             # F18 (known finding): deletions from a component's setup – a whole section, one leaf, a user-supplied key,
             # a sub-tree, a key that does not exist (nothing to delete: not a finding)
             case([N(0, "a", [("s0.k0", 1), ("s1.k0", 2)])], delete=("s0", "delattr"), post=[("s1.k0", 5, "update")]),
@@ -560,7 +595,7 @@ class C20(Prop):
         for p, v in case["ov"]:
             plan.append((f"user configuration {p} {tok(v)}", "user", None))
         for name, defs in obs["mgrs"]:
-            plan.append((f"mgr {name} {_enc_defs(defs)}", "mgr", name))
+            plan.append((f"mgr {name} {_enc_defs(defs, tokens=True)}", "mgr", name))
         pos = 0
         for k, st in zip(case["batches"], obs["stages"]):
             plan.append((f"add {_enc_forest(case['forest'][pos:pos + k])}", "add", st))
@@ -808,6 +843,14 @@ class C20(Prop):
                        ("user-only", (ov | ms) - defaulted - mgrp)):
             if s:
                 t.append("layering:" + lab)
+        for lab, kind, pairs in (("ov", case["ov_kind"], case["ov"]), ("ms", case["ms_kind"], case["ms"])):
+            for pth, v in pairs:
+                vk = "None" if v is None else "False" if v is False else "0" if (v == 0 and not isinstance(v, bool)) else \
+                    "empty-str" if v == "" else "empty-list" if v == [] else "ordinary"
+                t.append(f"user-value:{vk}@{lab}-{kind}")
+                t.append(f"user-key-depth:{pth.count('.') + 1}")
+                if vk != "ordinary" and (pth in defaulted or pth in mgrp):
+                    t.append(f"falsy-user-value-over-default:{vk}")
         if obs["setup"] and obs["setup"].get("deleted"):
             d = obs["setup"]["deleted"]
             t.append("delete-from-setup:" + d[2])
